@@ -3,7 +3,8 @@
 (* Behaviour beyond the listed properties (reported as EXTRA lines, never  *)
 (* as a property violation): the latch and transition operators in both    *)
 (* storage formats against Logic.Latch8 / Logic.Transition on every        *)
-(* operand tuple.  Record: [fn, ins : << codes >>, res : code]             *)
+(* operand tuple; LogicSim.s_ppo_to_ppi in 4- and 8-valued mode.           *)
+(* Record: [fn, ins : << codes >>, res : code]                             *)
 (***************************************************************************)
 EXTENDS Logic, TLC, Json, IOUtils
 Recs == JsonDeserialize(IOEnv.TRACE_FILE)
@@ -16,5 +17,10 @@ Note(c) == PrintT(<<"INFO", "extra", c, R.fn, R.ins, R.res>>) /\ FALSE
 Expected == CASE R.fn = "mv_latch" -> Latch8(R.ins[1], R.ins[2], R.ins[3])
               [] R.fn = "bp8v_latch" -> Latch8(R.ins[1], R.ins[2], R.ins[3])
               [] R.fn = "mv_transition" -> Transition(R.ins[1], R.ins[2])
+              \* state transfer between clock cycles: 4-valued - the captured value becomes the assignment;
+              \* 8-valued - a transition from the FINAL value of the old assignment to the final value captured
+              [] R.fn = "ppo_to_ppi4" -> R.ins[2]
+              [] R.fn = "ppo_to_ppi8" -> IF Known(R.ins[1]) /\ Known(R.ins[2])
+                                         THEN Mk(Fin(R.ins[1]), Fin(R.ins[2]), B(Fin(R.ins[1]) # Fin(R.ins[2]))) ELSE UNKNOWN
 Agrees == R.res = Expected \/ Note("differs")
 =============================================================================
